@@ -39,6 +39,10 @@ def _inlineable(pat, c, en):
     method that consumes / mutates its receiver."""
     if pat.get('mut') or len(c) > 60 or '|' in c:
         return False
+    if str(pat.get('ty', '')).startswith('(') and not re.fullmatch(r'[\w.]+(\(\))?', c):
+        # a computed pair bound whole is kept under a name and read by projection, exactly as
+        # when it is taken apart by a tuple pattern
+        return False
     if re.search(r'\bself\.\w', c) and not c.endswith(')'):
         return False
     if _EFFECTFUL.search(c):
@@ -71,11 +75,77 @@ def _bind_params(pats, env):
     env['__cdepth__'] = d + 1
     names = []
     for p in pats:
+        ar = _tuple_arity(p.get('ty')) if p.get('k') == 'Binding' and not p.get('ch') and not p.get('mut') else 0
+        if ar >= 2:
+            # a pair bound whole is the pair of its components (read by `.0` / `.1` or taken apart
+            # by a later `let`): the same names as when the parameter is a tuple pattern
+            parts = []
+            for _ in range(ar):
+                nm = '%s%d' % ('abcdefgh'[min(d, 7)], len(names))
+                names.append(nm)
+                parts.append(nm)
+            env[p['local']] = '(' + ', '.join(parts) + ')'
+            continue
         for b in _pat_binds(p):
             nm = '%s%d' % ('abcdefgh'[min(d, 7)], len(names))
             env[b['local']] = nm
             names.append(nm)
     return names
+
+
+def _tuple_arity(ty):
+    """number of components of a tuple type `(A, B<C, D>, ..)`, 0 for anything else"""
+    ty = (ty or '').strip()
+    if not (ty.startswith('(') and ty.endswith(')')) or ty == '()':
+        return 0
+    depth, n = 0, 1
+    for i, ch in enumerate(ty):
+        if ch in '(<[':
+            depth += 1
+        elif ch in ')>]':
+            depth -= 1
+            if depth == 0 and i != len(ty) - 1:
+                return 0
+        elif ch == ',' and depth == 1:
+            n += 1
+    return n if not ty.rstrip(')').rstrip().endswith(',') else n - 1
+
+
+def _tuple_parts(c, n):
+    """components of a tuple written out as text `(x, y)` of arity n, else None"""
+    if c.startswith('(') and c.endswith(')') and _balanced(c[1:-1]):
+        ps = _split_top(c[1:-1])
+        if len(ps) == n and n >= 2:
+            return ps
+    return None
+
+
+def _balanced(s):
+    d = 0
+    for ch in s:
+        if ch in '([{':
+            d += 1
+        elif ch in ')]}':
+            d -= 1
+            if d < 0:
+                return False
+    return d == 0
+
+
+def _split_top(s):
+    out, d, cur = [], 0, ''
+    for ch in s:
+        if ch in '([{':
+            d += 1
+        elif ch in ')]}':
+            d -= 1
+        if ch == ',' and d == 0:
+            out.append(cur.strip())
+            cur = ''
+        else:
+            cur += ch
+    out.append(cur.strip())
+    return out
 
 
 def _keep_name(env, local):
@@ -380,7 +450,12 @@ def canon(e, env):
     if k == 'Range':
         return '%s..%s%s' % (canon(e['ch'][0], env), '=' if e['incl'] else '', canon(e['ch'][1], env))
     if k == 'Field':
-        r_ = '%s.%s' % (canon(e['ch'][0], env), e['field'])
+        b_ = canon(e['ch'][0], env)
+        if e['field'].isdigit() and b_.startswith('(') and b_.endswith(')'):
+            parts_ = _split_top(b_[1:-1])
+            if len(parts_) > int(e['field']) and len(parts_) >= 2 and _balanced(b_[1:-1]):
+                return parts_[int(e['field'])]          # projection of a tuple written out
+        r_ = '%s.%s' % (b_, e['field'])
         return env.get('__fields__', {}).get(r_, r_)
     if k == 'Struct':
         return '%s{%s}' % ('::'.join(strip_generics(e.get('def', '?')).split('::')[-1:]),
@@ -499,6 +574,11 @@ def canon(e, env):
                         nm = _keep_name(en, p_['local'])
                         en[p_['local']] = nm
                         parts.append('%s := %s' % (nm, c))
+                    elif p_.get('k') == 'Tuple' and all(q.get('k') in ('Binding', 'Wild') for q in p_['ch']) and \
+                            _tuple_parts(c, len(p_['ch'])) and not any(q.get('mut') for q in p_['ch']):
+                        for q, v__ in zip(p_['ch'], _tuple_parts(c, len(p_['ch']))):
+                            if q.get('k') == 'Binding':
+                                en[q['local']] = v__
                     elif p_.get('k') == 'Tuple' and all(q.get('k') in ('Binding', 'Wild') for q in p_['ch']):
                         if _inlineable({'mut': any(q.get('mut') for q in p_['ch'])}, c, en) and \
                                 re.fullmatch(r'[\w.]+(\(\))?', c):
@@ -871,7 +951,10 @@ def _paths(e, env=None, conds=frozenset(), effects=()):
                         # opaque tuple value: components by projection (of a kept name unless
                         # the value is a plain immutable one)
                         c = canon(init, en)
-                        if _inlineable({'mut': any(q.get('mut') for q in s['pat']['ch'])}, c, en) and \
+                        tp_ = _tuple_parts(c, len(s['pat']['ch'])) if not any(q.get('mut') for q in s['pat']['ch']) else None
+                        if tp_:
+                            nm = None
+                        elif _inlineable({'mut': any(q.get('mut') for q in s['pat']['ch'])}, c, en) and \
                                 re.fullmatch(r'[\w.]+(\(\))?', c):
                             nm = c
                         else:
@@ -879,7 +962,8 @@ def _paths(e, env=None, conds=frozenset(), effects=()):
                             ef = ef + ('%s := %s' % (nm, c),)
                         for i_, q in enumerate(s['pat']['ch']):
                             if q.get('k') == 'Binding':
-                                en[q['local']] = en.get('__names__', {}).get(q['local'], '%s.%d' % (nm, i_))
+                                en[q['local']] = tp_[i_] if tp_ else \
+                                    en.get('__names__', {}).get(q['local'], '%s.%d' % (nm, i_))
                     elif s['pat'].get('k') != 'Binding':
                         pc = pat_canon(s['pat'], en)
                         ef = ef + ('let %s = %s' % (pc, canon(init, en)),)
@@ -1084,14 +1168,18 @@ def env_at(root, node, env=None):
                 bind_let(p_, v_)
         elif pat.get('k') == 'Tuple' and all(q.get('k') in ('Binding', 'Wild') for q in pat['ch']):
             c = canon(init, env)
-            if _inlineable({'mut': any(q.get('mut') for q in pat['ch'])}, c, env) and \
+            tp_ = _tuple_parts(c, len(pat['ch'])) if not any(q.get('mut') for q in pat['ch']) else None
+            if tp_:
+                nm = None
+            elif _inlineable({'mut': any(q.get('mut') for q in pat['ch'])}, c, env) and \
                     re.fullmatch(r'[\w.]+(\(\))?', c):
                 nm = c
             else:
                 nm = _fresh(env, 'v')
             for i_, q in enumerate(pat['ch']):
                 if q.get('k') == 'Binding':
-                    env[q['local']] = env.get('__names__', {}).get(q['local'], '%s.%d' % (nm, i_))
+                    env[q['local']] = tp_[i_] if tp_ else \
+                        env.get('__names__', {}).get(q['local'], '%s.%d' % (nm, i_))
         else:
             pat_canon(pat, env)
 
